@@ -54,6 +54,13 @@ where
     }
 }
 
+/// Map a signed value to a non negative one which needs, as an unsigned integer, as many bytes
+/// as the value needs in two's complement (sign bit included).
+fn signed_size_key(v: i64) -> i64 {
+    let magnitude = if v < 0 { !v } else { v };
+    magnitude.saturating_mul(2)
+}
+
 #[derive(Default, Debug)]
 pub enum ValueCounter<T> {
     #[default]
@@ -242,11 +249,11 @@ impl<PN: PropertyName> Property<PN> {
             } => match entry.value(name).as_ref() {
                 Value::Signed(value) => {
                     counter.process(*value);
-                    size.process(*value);
+                    size.process(signed_size_key(*value));
                 }
                 Value::SignedWord(value) => {
                     counter.process(value.get());
-                    size.process(value.get());
+                    size.process(signed_size_key(value.get()));
                 }
                 _ => {
                     panic!("Value type doesn't correspond to property");
